@@ -18,7 +18,7 @@ func gcAlertsRule(o *Ob) {
 
 func init() {
 	propInfos["C13"] = &propInfo{
-		Explanation: "Decides the ingestion path's structure: (1) the POST handler stamps UpdatedAt with the receive time, defaults a missing start to the receive time (or to the end when one is given) and a missing end to receive time + resolve_timeout with the timeout flag; (2) best effort: empty labels are removed before validation, an invalid alert is skipped, every valid alert reaches Put, Put is called whatever the validation errors, and Put skips (never aborts on) an alert that cannot be stored; (3) Validate's table (start required; end, when set, not before start; labels required); (4) Put merges iff an alert with the same fingerprint is stored and the activity ranges overlap, with old.Merge(new); Merge's table (younger wins, earliest start, end by the resolved/timeout rules); (5) GET filters out exactly the alerts whose end is set and before now; (6) only resolved alerts are garbage collected.",
+		Explanation: "Decides the ingestion path's structure: (1) the POST handler stamps UpdatedAt with the receive time, defaults a missing start to the receive time (or to the end when one is given) and a missing end to receive time + resolve_timeout with the timeout flag; (2) best effort: empty labels are removed before validation, an invalid alert is skipped, every valid alert reaches Put, Put is called whatever the validation errors, and Put skips (never aborts on) an alert that cannot be stored; (3) Validate's table (start required; end, when set, not before start; labels required); (4) Put merges iff an alert with the same fingerprint is stored and the activity ranges overlap, with old.Merge(new); Merge's table (younger wins, earliest start, end by the resolved/timeout rules); (5) GET filters out exactly the alerts whose end is set and before now; (6) only resolved alerts are garbage collected; GET /alerts reports per alert the receivers of the routes matched for that alert, in a list of its own; subscribers are handed the stored (merged) version.",
 		NotDecided:  "the numeric merge contract over all submission histories; JSON decoding of the request.",
 	}
 
